@@ -37,7 +37,9 @@ func atomsList() []string {
 		"[ab]", "[^a]", "[a-c]", "[" + bs + "d]", "[" + bs + "s]", "[^" + bs + "s]", "[" + bs + "b]", "[]", "[^]", "[.]", "[[]", "[a" + bs + "-c]", "[-a]", "[a-]",
 		"[[:word:]]", "[" + bs + "w-]", "[^" + bs + "W]", "[" + bs + "]]", "[a^]", "[$]", "[" + bs + "x41-" + bs + "x43]", "[" + u4("00e9") + "]", "[" + eacute + "]", eacute, emoji, "[" + emoji + "]", "[^" + emoji + "]",
 		"[" + bs + "S]", "[^" + bs + "S]", "[" + bs + "D]", "[" + bs + "W]", "[" + bs + "n]", "[" + u4("2028") + "-" + u4("2029") + "]",
-		"^", "$", "(a)", "(?:a)", "(a|b)", "(?:a|)", "(a*)", "(?=a)", "(?!a)", "(?<=a)", "(?<!a)", "(a)" + bs + "1", "(a|b)" + bs + "1", "()", "(?:)", "(?<n>a)" + bs + "k<n>"}
+		"^", "$", "(a)", "(?:a)", "(a|b)", "(?:a|)", "(a*)", "(?=a)", "(?!a)", "(?<=a)", "(?<!a)", "(a)" + bs + "1", "(a|b)" + bs + "1", "()", "(?:)", "(?<n>a)" + bs + "k<n>",
+		// references on their own, so that sequences place them before, after and between groups
+		bs + "1", bs + "2", bs + "k<n>", "(b)", "(?<n>b)"}
 }
 
 var quants = []string{"", "*", "+", "?", "{2}", "{1,2}", "{1,}", "{0}", "*?", "+?", "??", "{1,2}?"}
@@ -224,8 +226,36 @@ type kase struct {
 	Converted string `json:"converted,omitempty"`
 }
 
+// needsBacktracking: the pattern holds a construct RE2 cannot express: look-around, a named
+// back-reference next to a named group, or \N with N <= the number of capturing groups of the whole
+// pattern (before or after the group).  A bare \k<n> without named groups and \N beyond the group
+// count are Annex B identity / legacy octal escapes: either engine may run them.
 func needsBacktracking(p string) bool {
-	return strings.Contains(p, "(?=") || strings.Contains(p, "(?!") || strings.Contains(p, "(?<") || strings.Contains(p, bs+"1") || strings.Contains(p, bs+"k<")
+	if strings.Contains(p, "(?=") || strings.Contains(p, "(?!") || strings.Contains(p, "(?<=") || strings.Contains(p, "(?<!") {
+		return true
+	}
+	named := strings.Contains(p, "(?<")
+	if named && strings.Contains(p, bs+"k<") {
+		return true
+	}
+	groups := 0
+	for i := 0; i < len(p); i++ {
+		switch p[i] {
+		case '\\':
+			i++
+		case '(':
+			if i+1 < len(p) && p[i+1] == '?' && !(i+2 < len(p) && p[i+2] == '<' && i+3 < len(p) && p[i+3] != '=' && p[i+3] != '!') {
+				continue
+			}
+			groups++
+		}
+	}
+	for n := 1; n <= 2; n++ {
+		if groups >= n && strings.Contains(p, bs+string(rune('0'+n))) {
+			return true
+		}
+	}
+	return false
 }
 
 func feature(p string) string {
